@@ -213,7 +213,13 @@ func enumCacheReqsSeeded(tier string, yield func(*scen) bool) {
 
 // enumWide: structs with 300 and 4100 declared fields (field-name map in hash mode, ids beyond 256 / 4096).
 func enumWide(tier string, yield func(*scen) bool) {
-	for _, nf := range []int{17, 300, 4100} {
+	for _, nf := range []int{17, 300, 4100, -300} {
+		// -300: 300 fields again, one of them (in the middle) with a non-ASCII alias: the name table of such a struct
+		// cannot be the hash map (its hash function is ASCII-only) although the names are poorly dispersed
+		nonASCII := nf < 0
+		if nonASCII {
+			nf = -nf
+		}
 		st := tbin.StructS()
 		for i := 1; i <= nf; i++ {
 			t := tbin.Sc(tbin.I32)
@@ -223,6 +229,10 @@ func enumWide(tier string, yield func(*scen) bool) {
 			st.Fields = append(st.Fields, tbin.SField{ID: int16(i), Name: fmt.Sprintf("field_%d_x", i), S: t, Req: 2})
 		}
 		p := jt.NewProg(fmt.Sprintf("wide%d", nf), st)
+		if nonASCII {
+			p = jt.NewProg(fmt.Sprintf("wide%d-nonascii", nf), st)
+			p.Set(st, nf/2, jt.FX{Alias: "键\u4e2d文", Ann: []string{`api.key = "键中文"`}})
+		}
 		g := &tbin.Gen{}
 		full := g.Build(st, 1)
 		variants := map[string]*tbin.Val{}
@@ -245,7 +255,7 @@ func enumWide(tier string, yield func(*scen) bool) {
 				if nf > 1000 && sp.Esc == 2 && name != "last-only" && name != "first-and-last" && tier != "thorough" {
 					continue
 				}
-				sc := &scen{op: "wide", trigger: fmt.Sprintf("fields=%d,%s,%s", nf, name, sp), prog: p, optName: "none", doc: jt.Render(j, sp), want: tbin.Bytes(v), ks: []int{0, 1, 2, 3}}
+				sc := &scen{op: "wide", trigger: fmt.Sprintf("fields=%d,%s,%s", nf, name, sp) + map[bool]string{true: ",non-ascii-alias"}[nonASCII], prog: p, optName: "none", doc: jt.Render(j, sp), want: tbin.Bytes(v), ks: []int{0, 1, 2, 3}}
 				if !yield(sc) {
 					return
 				}
